@@ -15,6 +15,9 @@ done
 echo "# independently seeded changes against /repo $rev, $(date -u +%Y-%m-%dT%H:%MZ); exit=1: detected"
 for d in "$here"/seeded/*/; do
     id="$(basename "$d" | cut -c1-3)"
+    # a few changes are detected by another check than the one they were written for
+    alt="$(python3 -c "import json,sys; print(json.load(open(sys.argv[1])).get('detecting_check',''))" "$d/meta.json" 2>/dev/null)"
+    [ -n "$alt" ] && id="$alt"
     "$here/tools/lab_mutant.sh" "$d/patch.diff" "$id" | cut -c1-240
 done
 } > "$here/seeded/RESULTS.txt.tmp" 2>&1 && mv "$here/seeded/RESULTS.txt.tmp" "$here/seeded/RESULTS.txt"
